@@ -20,7 +20,7 @@ const char *MUTS[] = {"Hputelement-new", "Hputelement-existing", "Hstartwrite", 
                       "VSsetclass-on-r", "VSfdefine-on-r", "VSsetinterlace-on-r", "VSsetexternalfile-on-r", "Vdeletetagref-on-r",
                       "Vinsert-on-r", "SDsetdimstrs", "SDsetnbitdataset", "SDsetdimval_comp", "GRsetexternalfile", "GRsetchunk",
                       "SDwritechunk", "GRwritechunk", "Hsetlength-on-read-aid", "Happendable-on-read-aid",
-                      "SDstart-not-hdf", "Hopen-not-hdf", "SDstart-rdwr-not-hdf"};
+                      "SDstart-not-hdf", "Hopen-not-hdf", "SDstart-rdwr-not-hdf", "GRwriteimage-legacy-rle"};
 const int   NMUT   = sizeof MUTS / sizeof MUTS[0];
 
 // Mutators kept out of the search unless knob unguard_ro_api=1 is set.  Empty: the sixteen mutators that read-only
@@ -59,6 +59,7 @@ struct ReadOnly : Profile {
         Rng kr          = rng.sub(1);
         p.knobs["ndds"] = kr.chance(0.5) ? kr.range(2, 8) : 16;
         p.knobs["oldversion"] = kr.chance(0.35) ? 1 : 0;
+        p.knobs["legacy_r8"] = kr.chance(0.3) ? 1 : 0; // a run-length encoded DFR8 image is added to the file before it is frozen
         p.knobs["with_writer"] = kr.chance(0.15) ? 1 : 0; // another client holds the file open for writing during phase B (SD calls only)
         p.knobs["reader_in_c"] = kr.chance(0.35) ? 1 + (int64_t)kr.below(3) : 0; // a reader is half way through an element while phase C opens the file for writing
         Rng r = rng.sub(2);
@@ -95,6 +96,7 @@ struct ReadOnly : Profile {
     }
 
     // one mutator on read-only handles.  Returns: 1 refused (FAIL), 0 accepted, -1 not applicable here
+    bool legacy_r8 = false; // the file holds a run-length encoded image of the DFR8 interface (its last image)
     int mutate(Mixed &mx, int api, int64_t a1, int64_t a2, uint64_t ds)
     {
         uint8  data[16];
@@ -208,6 +210,20 @@ struct ReadOnly : Profile {
             }
             if (n == "GRsetattr-file")
                 return GRsetattr(mx.grid, "ro_attr", DFNT_UINT8, 4, data) == FAIL;
+            if (n == "GRwriteimage-legacy-rle") {
+                // the image DFR8addimage stored run-length encoded (the last one of the file, it has no name)
+                int32 nimg = 0, nat = 0;
+                if (!legacy_r8 || GRfileinfo(mx.grid, &nimg, &nat) == FAIL || nimg < 1)
+                    return -1;
+                int32 ri = GRselect(mx.grid, nimg - 1);
+                if (ri == FAIL)
+                    return -1;
+                int32                start[2] = {0, 0}, cnt[2] = {6, 5};
+                std::vector<uint8_t> px(30, (uint8_t)(7 + a2 % 5));
+                int                  res = GRwriteimage(ri, start, NULL, cnt, px.data()) == FAIL;
+                GRendaccess(ri);
+                return res;
+            }
             int32 ix = GRnametoindex(mx.grid, strf("gr%d", modn(a1, 4)).c_str());
             if (ix < 0)
                 return -1;
@@ -543,6 +559,7 @@ struct ReadOnly : Profile {
         bool                  frozen = false;
         int                   refused = 0;
         int32                 writer_fid = FAIL;
+        legacy_r8 = false;
         bool                  noversion = false; // the file has no library-version element: whoever has it open for writing adds one
         for (size_t i = 0; i < p.ops.size(); i++) {
             const Op &o = p.ops[i];
@@ -583,6 +600,16 @@ struct ReadOnly : Profile {
                         fwrite(text, 1, sizeof text, jf);
                         fclose(jf);
                     }
+                }
+                if (p.knob("legacy_r8", 0)) {
+                    // an image of the old single-file raster interface, run-length encoded, joins the file
+                    std::vector<uint8_t> px(30);
+                    for (int q = 0; q < 30; q++)
+                        px[q] = (uint8_t)(q / 7);
+                    if (DFR8addimage(mx.path.c_str(), px.data(), 6, 5, COMP_RLE) == FAIL)
+                        ctx.fail("workload-call-failed", "workload-call-failed:DFR8addimage", "adding a run-length encoded DFR8 image failed");
+                    legacy_r8 = true;
+                    ctx.probe("legacy-rle-image-present");
                 }
                 if (p.knob("with_writer", 0) && !noversion) {
                     // Another client has the file open for writing (and edits nothing).  The access mode of the H layer belongs
